@@ -303,6 +303,22 @@ Proof.
     + apply IH.
 Qed.
 
+(* Header fails with "unrecognized grpc-encoding" exactly when the standard
+   table rejects the header list: no standard announcement (in particular an
+   explicit `identity`) is ever refused, no unknown one is ever accepted. *)
+Theorem select_enc_none_iff_std_rejects hs cur :
+  select_enc cur hs = None <-> std_rejects hs = true.
+Proof.
+  rewrite unknown_encoding_rejected. unfold std_rejects. rewrite existsb_exists. split.
+  - intros [v [Hin Hv]]. apply in_map_iff in Hin. destruct Hin as [h [<- Hin]].
+    apply filter_In in Hin. destruct Hin as [Hin Hn]. exists h. split; [exact Hin|].
+    now rewrite Hn, Hv.
+  - intros [h [Hin Hh]]. apply andb_true_iff in Hh. destruct Hh as [Hn Hv].
+    exists (snd h). split.
+    + apply in_map, filter_In. auto.
+    + destruct (std_enc_of_name (snd h)); [discriminate|reflexivity].
+Qed.
+
 (* ================= HEADERS are forwarded verbatim ================= *)
 
 Theorem header_forwarded decomp comp v p d hs es p' out c :
